@@ -65,6 +65,9 @@ def run(ck, replay=None):
         for i in range(nt):
             add(prof, d, "totals", 0, i, nt)
         add(prof, d, "utf8", 0, 0, 1)
+        ne = 2 if quick else 4
+        for i in range(ne):
+            add(prof, d, "errwin", 0, i, ne)
         add(prof, d, "fmt", 20_000 if quick else 400_000, 0, 1, seed * 31 + 7)
         nr = 2 if quick else 12
         for i in range(nr):
@@ -106,8 +109,12 @@ def run(ck, replay=None):
     ck.extra["script_alphabet"] = "1,2,31,32,33,len,Ok(0),EINTR,error"
     ck.assume("a scripted reader never hands over more than the offered length and a writer never accepts more "
               "(0<k<=len); Ok(0) for a non-empty buffer is the end of the stream / a write-zero condition")
-    ck.assume("after an error the appended part only has to be a prefix of what the reader handed over; the initial "
-              "content must be intact; for read_exact the buffer content after a failure is not judged")
+    ck.assume("when read_to_end surfaces a non-EINTR error, every byte the reader handed over before it must be in the "
+              "buffer (appended after the existing content, nothing else appended), as std documents and the unchanged code "
+              "does; read_to_string: the same when those bytes are valid UTF-8, and the String exactly as before when they "
+              "end in an invalid or incomplete sequence (the unchanged code rolls back); resumed histories (call, Err, call "
+              "again on the same reader and buffer) must add up to exactly what the reader handed out; for read_exact the "
+              "buffer content after a failure is not judged")
     ck.assume("debug build has overflow checks and debug assertions on, release has them off; Miri runs use the "
               "default borrow tracker and interpret unoptimised MIR (time-boxed, skipped cases are counted)")
     ck.assume("print!/eprint! (unix/print.rs) are not exercised by this check")
